@@ -289,6 +289,12 @@ func checkC20(c *vh.Ctx) {
 		if r.Chance(0.4) {
 			stop = end - r.Range(1, 120)
 		}
+		endsBeforeStart := k%6 == 4
+		if endsBeforeStart {
+			// the whole series lies before the first simulated day and ends one to three days before it: every simulated day has
+			// the last given value
+			d, stop = start-r.Range(30, 400), start-r.Range(1, 3)
+		}
 		var s []gwRec
 		for d <= stop || len(s) == 0 {
 			lvl := vh.RoundTo(r.Uni(3, 30), r.Intn(3))
@@ -304,6 +310,14 @@ func checkC20(c *vh.Ctx) {
 			default:
 				d += r.Range(31, 400)
 			}
+		}
+		if endsBeforeStart {
+			if last := s[len(s)-1]; last.Day != stop {
+				lvl := vh.RoundTo(last.Level+r.Uni(2, 6), 1)
+				s = append(s, gwRec{stop, lvl})
+				p.GWSerie = append(p.GWSerie, proj.GWPoint{Date: proj.FromZ(stop), Level: lvl})
+			}
+			c.Count("run:series:ends-just-before-the-start")
 		}
 		if err := p.Write(root, c.Repo); err != nil {
 			c.Violate("search", "harness:write", err.Error(), nil)
